@@ -66,6 +66,9 @@ def run_property(prop: str, tier: str, repo: str, seed: int, args) -> int:
         keys = [k for k in keys if args.only in k]
     timeout_ms = 10000 if tier == "quick" else 20000
     results, skipped = verify_parallel(eng, keys, tier, timeout_ms)
+    if os.environ.get("VERIF_SLOWLOG"):
+        for r_ in sorted(results, key=lambda r_: -r_.get("seconds", 0))[:8]:
+            print(f"SLOW {r_.get('seconds', 0):8.1f}s {r_['key']} / {r_['case']}", file=sys.stderr)
     undecided: list[str] = []
     for k, why in skipped.items():
         if why == "missing":
